@@ -242,7 +242,10 @@ def body_str(case):
     except Exception as e:
         out.exc("build-api", e)
         return out
-    eq_both(out, parsed, api, "str-equal", "from_str", f"from_str({s!r}) = {show(parsed,250)} != API {show(api,250)}")
+    if not numeric:
+        # (for integer- / float-looking tokens no API-built equivalent is documented: only the
+        #  behaviour is compared there)
+        eq_both(out, parsed, api, "str-equal", "from_str", f"from_str({s!r}) = {show(parsed,250)} != API {show(api,250)}")
     exp = model.ref_select(parts, doc) if parts else [(doc, ())]
     try:
         got = parsed.get_data(doc, return_paths=True)
